@@ -1,42 +1,42 @@
 // C17: concurrent scenarios against the real services, run under the Go race detector.
-// TestC17 re-executes this test binary once per scenario (TestC17Scenario/<name>) so that a race
-// report in one scenario neither fails the harness nor hides the others; a scenario "races" when
-// its output contains "WARNING: DATA RACE" or a fatal "concurrent map" error.
+//
+// TestC17 re-executes this test binary once per input (TestC17Scenario with VERIF_C17_SCENARIO set)
+// so that a race report or a hang in one scenario neither fails the harness nor hides the others.
+// Observed per run:
+//
+//	race  — the output contains "WARNING: DATA RACE" or the runtime's fatal "concurrent map" error;
+//	hang  — the scenario did not finish within its watchdog (goroutines blocked on a leaked lock):
+//	        the goroutine dump is the replay;
+//	crash — the process was aborted by a panic raised in Vouch's own code (the first frame of the
+//	        panicking goroutine outside the Go runtime is in github.com/attestantio/vouch, not in a
+//	        mock): an overlap made an operation see a state that no sequential order produces.
+//
+// A scenario that fails for any other reason is a harness problem and fails the harness run.
+//
+// Input (corpus / replay): {"scenario": <name>}.  The corpus holds the scenarios that witnessed the
+// fixed defects; they run first, then every registered scenario VERIF_N times.
+//
+// Scenario files: scen_*_test.go, each registering into `scenarios` from an init function.  The
+// goroutine structure of a scenario follows production: ONE goroutine per event subscription and
+// per periodic job (their handlers never overlap themselves), several goroutines for everything
+// that production calls from arbitrary goroutines (scheduler jobs, REST requests, other services).
 package c17
 
 import (
 	"context"
+	"encoding/json"
 	"fmt"
 	"os"
 	"os/exec"
+	"path/filepath"
+	"runtime/pprof"
 	"sort"
 	"strings"
 	"sync"
 	"testing"
 	"time"
 
-	"github.com/attestantio/go-eth2-client/api"
-	apiv1 "github.com/attestantio/go-eth2-client/api/v1"
-	"github.com/attestantio/go-eth2-client/spec/bellatrix"
-	"github.com/attestantio/go-eth2-client/spec/phase0"
-	"github.com/attestantio/vouch/mock"
-	mockaccountmanager "github.com/attestantio/vouch/services/accountmanager/mock"
-	"github.com/attestantio/vouch/services/blockrelay"
-	standardcache "github.com/attestantio/vouch/services/cache/standard"
-	nullmetrics "github.com/attestantio/vouch/services/metrics/null"
-	mocksigner "github.com/attestantio/vouch/services/signer/mock"
-	mocksyncaggregator "github.com/attestantio/vouch/services/synccommitteeaggregator/mock"
-	standardmessenger "github.com/attestantio/vouch/services/synccommitteemessenger/standard"
-	walletaccountmanager "github.com/attestantio/vouch/services/accountmanager/wallet"
-	e2types "github.com/wealdtech/go-eth2-types/v2"
-	keystorev4 "github.com/wealdtech/go-eth2-wallet-encryptor-keystorev4"
-	nd "github.com/wealdtech/go-eth2-wallet-nd/v2"
-	filesystem "github.com/wealdtech/go-eth2-wallet-store-filesystem"
-	e2wtypes "github.com/wealdtech/go-eth2-wallet-types/v2"
-	"github.com/rs/zerolog"
-
 	. "verifharness/common"
-	"verifharness/mocks"
 )
 
 type scenario struct {
@@ -44,8 +44,39 @@ type scenario struct {
 	run     func(t *testing.T)
 }
 
+// Input is the JSON input of one case.
+type Input struct {
+	Scenario string `json:"scenario"`
+}
+
+var scenarios = map[string]scenario{}
+
+// scale multiplies the number of rounds of the scenarios (thorough tier: 3).
+func scale() int {
+	if os.Getenv("VERIF_TIER") == "thorough" {
+		return 3
+	}
+	return EnvInt("VERIF_C17_SCALE", 1)
+}
+
+// jitter varies a number of rounds by -25%..+25% from the run's seed (VERIF_SEED), so that different
+// seeds exercise different overlaps.
+var jitterRng = NewRand(Seed())
+var jitterMu sync.Mutex
+
+func jitter(rounds int) int {
+	jitterMu.Lock()
+	defer jitterMu.Unlock()
+	r := rounds * (75 + jitterRng.Intn(51)) / 100
+	if r < 1 {
+		r = 1
+	}
+	return r
+}
+
 // hammer runs every function of fs concurrently, each `rounds` times from `copies` goroutines.
 func hammer(copies, rounds int, fs ...func(i int)) {
+	rounds = jitter(rounds * scale())
 	var wg sync.WaitGroup
 	start := make(chan struct{})
 	for _, f := range fs {
@@ -64,167 +95,25 @@ func hammer(copies, rounds int, fs ...func(i int)) {
 	wg.Wait()
 }
 
-var scenarios = map[string]scenario{}
-
-func init() {
-	scenarios["messenger-slotdata"] = scenario{"synccommitteemessenger_standard", func(t *testing.T) {
-		ctx := context.Background()
-		ct := mocks.NewChainTime(32)
-		svc, err := standardmessenger.New(ctx,
-			standardmessenger.WithLogLevel(zerolog.Disabled),
-			standardmessenger.WithMonitor(nullmetrics.New()),
-			standardmessenger.WithProcessConcurrency(2),
-			standardmessenger.WithSpecProvider(mock.NewSpecProvider()),
-			standardmessenger.WithChainTimeService(ct),
-			standardmessenger.WithSyncCommitteeAggregator(mocksyncaggregator.New()),
-			standardmessenger.WithBeaconBlockRootProvider(mock.NewBeaconBlockRootProvider()),
-			standardmessenger.WithSyncCommitteeMessagesSubmitter(mock.NewSyncCommitteeMessagesSubmitter()),
-			standardmessenger.WithSyncCommitteeSubscriptionsSubmitter(mock.NewSyncCommitteeSubscriptionsSubmitter()),
-			standardmessenger.WithValidatingAccountsProvider(mockaccountmanager.NewValidatingAccountsProvider()),
-			standardmessenger.WithSyncCommitteeSelectionSigner(mocksigner.New()),
-			standardmessenger.WithSyncCommitteeRootSigner(mocksigner.New()),
-		)
-		if err != nil {
-			t.Fatalf("messenger constructor: %v", err)
+// single runs f `rounds` times on ONE goroutine (an event stream, a periodic job); the returned
+// function waits for it.
+func single(rounds int, f func(i int)) (wait func()) {
+	rounds = jitter(rounds * scale())
+	done := make(chan struct{})
+	go func() {
+		defer close(done)
+		for i := 0; i < rounds; i++ {
+			f(i)
 		}
-		hammer(2, 300,
-			func(i int) {
-				svc.UpdateSyncCommitteeDataRecord(phase0.Slot(i), phase0.Root{byte(i)}, map[phase0.ValidatorIndex][]phase0.CommitteeIndex{1: {2}})
-			},
-			func(i int) { _, _ = svc.GetDataUsedForSlot(phase0.Slot(i)) },
-			func(i int) { svc.RemoveHistoricDataUsedForSlotVerification(phase0.Slot(i + 1000)) },
-		)
-	}}
-
-	scenarios["cache-blockroot"] = scenario{"cache_standard", func(t *testing.T) {
-		ctx := context.Background()
-		ct := mocks.NewChainTime(32)
-		ev := mocks.NewEventsProvider()
-		sched := mocks.NewRecScheduler()
-		svc, err := standardcache.New(ctx,
-			standardcache.WithLogLevel(zerolog.Disabled),
-			standardcache.WithMonitor(nullmetrics.New()),
-			standardcache.WithChainTime(ct),
-			standardcache.WithScheduler(sched),
-			standardcache.WithEventsProvider(ev),
-			standardcache.WithSignedBeaconBlockProvider(mock.NewSignedBeaconBlockProvider()),
-			standardcache.WithBeaconBlockHeadersProvider(mock.NewBeaconBlockHeadersProvider()),
-		)
-		if err != nil {
-			t.Fatalf("cache constructor: %v", err)
-		}
-		clean, _ := sched.Get("Clean block root to slot cache")
-		ct.SetEpoch(100)
-		// event handlers of one stream are sequential: one goroutine each for block and head events
-		var wg sync.WaitGroup
-		wg.Add(2)
-		go func() {
-			defer wg.Done()
-			for i := 0; i < 300; i++ {
-				ev.Handlers["block"][0](&apiv1.Event{Topic: "block", Data: &apiv1.BlockEvent{Slot: phase0.Slot(i), Block: phase0.Root{byte(i)}}})
-			}
-		}()
-		go func() {
-			defer wg.Done()
-			for i := 0; i < 50; i++ {
-				ev.Handlers["head"][0](&apiv1.Event{Topic: "head", Data: &apiv1.HeadEvent{Slot: phase0.Slot(i), Block: phase0.Root{byte(i)}}})
-			}
-		}()
-		hammer(2, 200,
-			func(i int) { _, _ = svc.BlockRootToSlot(ctx, phase0.Root{byte(i)}) },
-			func(i int) { svc.SetBlockRootToSlot(phase0.Root{byte(i), 1}, phase0.Slot(i)) },
-			func(i int) { _, _ = svc.ExecutionChainHead(ctx) },
-		)
-		clean.Func(ctx)
-		wg.Wait()
-	}}
-
-	scenarios["wallet-accounts"] = scenario{"accountmanager_wallet", func(t *testing.T) {
-		ctx := context.Background()
-		if err := e2types.InitBLS(); err != nil {
-			t.Fatalf("bls: %v", err)
-		}
-		dir := t.TempDir()
-		store := filesystem.New(filesystem.WithLocation(dir))
-		// light key derivation: the scenario unlocks the accounts on every refresh
-		enc := keystorev4.New(keystorev4.WithCipher("pbkdf2"), keystorev4.WithCost(t, 10))
-		w, err := nd.CreateWallet(ctx, "W", store, enc)
-		if err != nil {
-			t.Fatalf("create wallet: %v", err)
-		}
-		if err := w.(e2wtypes.WalletLocker).Unlock(ctx, nil); err != nil {
-			t.Fatalf("unlock wallet: %v", err)
-		}
-		for i := 0; i < 2; i++ {
-			if _, err := w.(e2wtypes.WalletAccountCreator).CreateAccount(ctx, fmt.Sprintf("a%d", i), []byte("pass")); err != nil {
-				t.Fatalf("create account: %v", err)
-			}
-		}
-		svc, err := walletaccountmanager.New(ctx,
-			walletaccountmanager.WithLogLevel(zerolog.Disabled),
-			walletaccountmanager.WithMonitor(nullmetrics.New()),
-			walletaccountmanager.WithProcessConcurrency(2),
-			walletaccountmanager.WithLocations([]string{dir}),
-			walletaccountmanager.WithAccountPaths([]string{"W"}),
-			walletaccountmanager.WithPassphrases([][]byte{[]byte("pass")}),
-			walletaccountmanager.WithValidatorsManager(mock.NewValidatorsManager()),
-			walletaccountmanager.WithSpecProvider(mock.NewSpecProvider()),
-			walletaccountmanager.WithFarFutureEpochProvider(mock.NewFarFutureEpochProvider(0xffffffffffffffff)),
-			walletaccountmanager.WithDomainProvider(mock.NewDomainProvider()),
-			walletaccountmanager.WithCurrentEpochProvider(mocks.NewChainTime(32)),
-		)
-		if err != nil {
-			t.Fatalf("wallet account manager constructor: %v", err)
-		}
-		stop := make(chan struct{})
-		var wg sync.WaitGroup
-		for r := 0; r < 3; r++ {
-			wg.Add(1)
-			go func() {
-				defer wg.Done()
-				for {
-					select {
-					case <-stop:
-						return
-					default:
-					}
-					_, _ = svc.ValidatingAccountsForEpoch(ctx, 5)
-					_, _ = svc.ValidatingAccountsForEpochByIndex(ctx, 5, []phase0.ValidatorIndex{1, 2})
-					_, _ = svc.SyncCommitteeAccountsForEpoch(ctx, 5)
-					_, _ = svc.AccountByPublicKey(ctx, phase0.BLSPubKey{1})
-				}
-			}()
-		}
-		for i := 0; i < 4; i++ {
-			svc.Refresh(ctx)
-		}
-		close(stop)
-		wg.Wait()
-	}}
-
-	scenarios["v1-proposerconfig"] = scenario{"blockrelay_v1", func(t *testing.T) {
-		doc := `{"default_config":{"fee_recipient":"0x0200000000000000000000000000000000000000","builder":{"enabled":true,"relays":["https://relay.example.com/"]}},
-                 "proposer_config":{"0xaaaaaaaaaaaaaaaaaaaaaaaaaaaaaaaaaaaaaaaaaaaaaaaaaaaaaaaaaaaaaaaaaaaaaaaaaaaaaaaaaaaaaaaaaaaaaaaa":{"fee_recipient":"0x0300000000000000000000000000000000000000"}}}`
-		var cfg blockrelay.ExecutionConfigurator
-		c, err := blockrelay.UnmarshalJSON([]byte(doc))
-		if err != nil {
-			t.Fatalf("unmarshal: %v", err)
-		}
-		cfg = c
-		var k phase0.BLSPubKey
-		for i := range k {
-			k[i] = 0xaa
-		}
-		hammer(4, 100,
-			func(i int) {
-				_, _ = cfg.ProposerConfig(context.Background(), nil, phase0.BLSPubKey{byte(i)}, bellatrix.ExecutionAddress{1}, 30000000)
-			},
-			func(i int) {
-				_, _ = cfg.ProposerConfig(context.Background(), nil, k, bellatrix.ExecutionAddress{1}, 30000000)
-			},
-		)
-	}}
+	}()
+	return func() { <-done }
 }
+
+const (
+	dataMarker      = "C17-DATA"
+	hangMarker      = "C17-HANG"
+	scenarioTimeout = 25 * time.Second
+)
 
 func TestC17Scenario(t *testing.T) {
 	name := os.Getenv("VERIF_C17_SCENARIO")
@@ -236,44 +125,225 @@ func TestC17Scenario(t *testing.T) {
 	go func() { defer close(done); sc.run(t) }()
 	select {
 	case <-done:
-	case <-time.After(60 * time.Second):
-		t.Fatalf("scenario %s timed out", name)
+	case <-time.After(scenarioTimeout):
+		fmt.Fprintf(os.Stderr, "%s: scenario %s did not finish within %s; goroutines:\n", hangMarker, name, scenarioTimeout)
+		_ = pprof.Lookup("goroutine").WriteTo(os.Stderr, 1)
+		os.Exit(3)
 	}
+}
+
+type observed struct {
+	race, hang, crash, broken bool
+	report                    string
+	data                      *scenarioData
+}
+
+// scenarioData is the optional structured output of a scenario (a line "C17-DATA {json}"): for the
+// account-churn scenarios the key sets listed in each phase and the distinct answers of the lookups.
+type scenarioData struct {
+	Listings   [][]uint64    `json:"listings"`
+	Active     []uint64      `json:"active"`
+	Requested  []uint64      `json:"requested"`
+	Answers    [][][2]uint64 `json:"answers"`
+	AnswersIdx [][][2]uint64 `json:"answers_idx"`
+}
+
+func parseData(text string) *scenarioData {
+	i := strings.Index(text, dataMarker+" ")
+	if i < 0 {
+		return nil
+	}
+	line := text[i+len(dataMarker)+1:]
+	if j := strings.IndexByte(line, '\n'); j >= 0 {
+		line = line[:j]
+	}
+	var d scenarioData
+	if err := json.Unmarshal([]byte(line), &d); err != nil {
+		return nil
+	}
+	return &d
+}
+
+func nList(xs []uint64) string {
+	items := make([]string, 0, len(xs))
+	for _, x := range xs {
+		items = append(items, N(x))
+	}
+	return List(items)
+}
+
+func nLists(xss [][]uint64) string {
+	items := make([]string, 0, len(xss))
+	for _, xs := range xss {
+		items = append(items, nList(xs))
+	}
+	return List(items)
+}
+
+func answerLists(as [][][2]uint64) string {
+	items := make([]string, 0, len(as))
+	for _, a := range as {
+		ps := make([]string, 0, len(a))
+		for _, p := range a {
+			ps = append(ps, Pair(N(p[0]), Bool(p[1] != 0)))
+		}
+		items = append(items, List(ps))
+	}
+	return List(items)
+}
+
+// vouchPanic reports whether the output shows a panic whose first frame outside the runtime is Vouch code.
+func vouchPanic(text string) (bool, string) {
+	i := strings.Index(text, "\npanic: ")
+	if i < 0 {
+		if !strings.HasPrefix(text, "panic: ") {
+			return false, ""
+		}
+		i = -1
+	}
+	rest := text[i+1:]
+	j := strings.Index(rest, "[running]:")
+	if j < 0 {
+		return false, ""
+	}
+	for _, line := range strings.Split(rest[j:], "\n")[1:] {
+		if line == "" {
+			break
+		}
+		if strings.HasPrefix(line, "\t") || strings.HasPrefix(line, "panic(") || strings.HasPrefix(line, "runtime.") ||
+			strings.HasPrefix(line, "testing.") || strings.HasPrefix(line, "sync.") || strings.HasPrefix(line, "internal/") {
+			continue
+		}
+		inVouch := strings.HasPrefix(line, "github.com/attestantio/vouch/") && !strings.Contains(line, "/mock") && !strings.Contains(line, "vouch/testing/")
+		return inVouch, rest
+	}
+	return false, ""
+}
+
+func runScenario(name string) observed {
+	ctx, cancel := context.WithTimeout(context.Background(), scenarioTimeout+20*time.Second)
+	defer cancel()
+	cmd := exec.CommandContext(ctx, os.Args[0], "-test.run", "TestC17Scenario$", "-test.count=1")
+	cmd.Env = append(os.Environ(), "VERIF_C17_SCENARIO="+name, "GORACE=halt_on_error=0")
+	out, err := cmd.CombinedOutput()
+	text := string(out)
+	var o observed
+	o.race = strings.Contains(text, "WARNING: DATA RACE") || strings.Contains(text, "fatal error: concurrent map")
+	o.hang = strings.Contains(text, hangMarker) || strings.Contains(text, "all goroutines are asleep") || ctx.Err() != nil
+	o.data = parseData(text)
+	var panicText string
+	o.crash, panicText = vouchPanic(text)
+	o.broken = err != nil && !o.race && !o.hang && !o.crash
+	switch {
+	case o.crash:
+		o.report = head(panicText, 2400)
+	case o.race:
+		o.report = head(raceReport(text), 2400)
+	case o.hang:
+		o.report = head(hangReport(text), 2400)
+	case o.broken:
+		o.report = head(text, 2400)
+	}
+	return o
 }
 
 func TestC17(t *testing.T) {
 	col := NewCollector("C17", "Check.C17",
-		"one case per concurrent scenario (goroutines hammering the entry points of one real service under the Go race detector); all are non-trivial")
+		"one case per run of a concurrent scenario (goroutines driving the entry points of one real service under the Go race detector, one goroutine per event stream / periodic job, several for everything else); all are non-trivial")
 	col.Preamble = "Open Scope string_scope."
-	names := make([]string, 0, len(scenarios))
-	for n := range scenarios {
-		names = append(names, n)
-	}
-	sort.Strings(names)
-	repeats := EnvInt("VERIF_N", 1)
-	for _, n := range names {
-		for rep := 0; rep < repeats; rep++ {
-			cmd := exec.Command(os.Args[0], "-test.run", "TestC17Scenario$", "-test.count=1")
-			cmd.Env = append(os.Environ(), "VERIF_C17_SCENARIO="+n, "GORACE=halt_on_error=0")
-			out, err := cmd.CombinedOutput()
-			text := string(out)
-			race := strings.Contains(text, "WARNING: DATA RACE") || strings.Contains(text, "concurrent map")
-			broken := err != nil && !race
-			if broken {
-				// a scenario that fails for another reason is a harness problem, not a verdict
-				t.Errorf("scenario %s failed without a race report: %v\n%s", n, err, tail(text, 1500))
-			}
-			col.Count("scenario:" + n)
-			if race {
-				col.Count("race:" + n)
-			}
-			id := col.NextID()
-			col.Add(Case{
-				Term: Record("c_id", N(id), "c_service", fmt.Sprintf("%q", scenarios[n].service), "c_scenario", fmt.Sprintf("%q", n), "c_race", Bool(race)),
-				Key:  fmt.Sprintf("%s#%d", n, rep), Nontrivial: true, Tags: []string{"scenario:" + n},
-				Sample: map[string]any{"input": map[string]any{"scenario": n}, "observed": map[string]any{"race": race, "report": tail(raceReport(text), 1800)}},
-			})
+	var inputs []Input
+	for _, in := range LoadInputs[Input]("C17") {
+		if _, ok := scenarios[in.Scenario]; !ok {
+			t.Errorf("corpus/replay names an unknown scenario %q", in.Scenario)
+			continue
 		}
+		inputs = append(inputs, in)
+		col.Count("corpus-or-replay")
+	}
+	if os.Getenv("VERIF_REPLAY") == "" {
+		// every service the translator extracts must have a scenario (the meta file is written by bin/c17-translate)
+		if data, err := os.ReadFile(filepath.Join("..", "..", "build", "c17_meta.json")); err == nil {
+			var meta []struct {
+				Name    string   `json:"name"`
+				Entries []string `json:"entries"`
+			}
+			if json.Unmarshal(data, &meta) == nil {
+				covered := map[string]bool{}
+				for _, sc := range scenarios {
+					covered[sc.service] = true
+				}
+				for _, m := range meta {
+					if !covered[m.Name] {
+						t.Errorf("extracted service %s (%d entries) has no race scenario in harness/c17", m.Name, len(m.Entries))
+					}
+				}
+			}
+		} else {
+			col.Note("build/c17_meta.json not found: scenario coverage of the extracted services not checked")
+		}
+		names := make([]string, 0, len(scenarios))
+		for n := range scenarios {
+			names = append(names, n)
+		}
+		sort.Strings(names)
+		repeats := EnvInt("VERIF_N", 1)
+		for rep := 0; rep < repeats; rep++ {
+			for _, n := range names {
+				inputs = append(inputs, Input{Scenario: n})
+			}
+		}
+	}
+	// run (a few at a time: the race detector does not depend on timing luck, only on the
+	// accesses happening without a happens-before edge)
+	results := make([]observed, len(inputs))
+	par := EnvInt("VERIF_C17_PAR", 4)
+	sem := make(chan struct{}, par)
+	var wg sync.WaitGroup
+	for i := range inputs {
+		wg.Add(1)
+		sem <- struct{}{}
+		go func(i int) {
+			defer wg.Done()
+			defer func() { <-sem }()
+			results[i] = runScenario(inputs[i].Scenario)
+		}(i)
+	}
+	wg.Wait()
+	reps := map[string]int{}
+	for i, in := range inputs {
+		o := results[i]
+		n := in.Scenario
+		if o.broken {
+			// a scenario that fails for another reason is a harness problem, not a verdict
+			t.Errorf("scenario %s failed without a race report or a hang:\n%s", n, o.report)
+		}
+		col.Count("scenario:" + n)
+		col.Count("service:" + scenarios[n].service)
+		if o.race {
+			col.Count("race:" + n)
+		}
+		if o.hang {
+			col.Count("hang:" + n)
+		}
+		if o.crash {
+			col.Count("crash:" + n)
+		}
+		d := o.data
+		if d == nil {
+			d = &scenarioData{}
+		} else {
+			col.Count("answers:" + n)
+		}
+		id := col.NextID()
+		col.Add(Case{
+			Term: Record("c_id", N(id), "c_service", fmt.Sprintf("%q", scenarios[n].service), "c_scenario", fmt.Sprintf("%q", n),
+				"c_race", Bool(o.race), "c_hang", Bool(o.hang), "c_crash", Bool(o.crash),
+				"c_listings", nLists(d.Listings), "c_active", nList(d.Active), "c_requested", nList(d.Requested),
+				"c_answers", answerLists(d.Answers), "c_answers_idx", answerLists(d.AnswersIdx)),
+			Key: fmt.Sprintf("%s#%d", n, reps[n]), Nontrivial: true, Tags: []string{"scenario:" + n, "service:" + scenarios[n].service},
+			Sample: map[string]any{"input": in, "observed": map[string]any{"race": o.race, "hang": o.hang, "crash": o.crash, "report": o.report, "data": o.data}},
+		})
+		reps[n]++
 	}
 	if err := col.Flush(); err != nil {
 		t.Fatal(err)
@@ -283,7 +353,7 @@ func TestC17(t *testing.T) {
 func raceReport(text string) string {
 	i := strings.Index(text, "WARNING: DATA RACE")
 	if i < 0 {
-		i = strings.Index(text, "concurrent map")
+		i = strings.Index(text, "fatal error: concurrent map")
 	}
 	if i < 0 {
 		return ""
@@ -291,11 +361,25 @@ func raceReport(text string) string {
 	return text[i:]
 }
 
-func tail(s string, n int) string {
+// hangReport keeps the goroutines blocked on a lock (the interesting part of the dump).
+func hangReport(text string) string {
+	i := strings.Index(text, hangMarker)
+	if i < 0 {
+		return text
+	}
+	text = text[i:]
+	var keep []string
+	for _, blk := range strings.Split(text, "\n\n") {
+		if strings.Contains(blk, hangMarker) || strings.Contains(blk, "sync.(*RWMutex)") || strings.Contains(blk, "sync.(*Mutex)") || strings.Contains(blk, "sync.runtime_Sem") {
+			keep = append(keep, blk)
+		}
+	}
+	return strings.Join(keep, "\n\n")
+}
+
+func head(s string, n int) string {
 	if len(s) <= n {
 		return s
 	}
 	return s[:n]
 }
-
-var _ = api.SpecOpts{}
